@@ -474,51 +474,104 @@ def all_atoms(p, acc=None):
 # find_nearest_note: the scan
 
 class SearchRun:
+    """Loop-head abstraction of the nearest-note scan (installed as the interpreter's loop hook).
+
+    The scan is recognised by role, wherever it lives inside the quantizer module: the first loop met is the octave loop,
+    the second the pitch-class loop (it may sit in a helper the first one calls); the two accumulators are the memory
+    slots -- plain locals, or fields of one private struct passed down by `&mut` -- that hold `0` and the maximum of
+    their type when the octave loop is entered."""
+
     def __init__(self, qz, outer, inner, v_range=(0, None)):
         self.qz = qz
         self.modes = [outer, inner]
-        self.acc_locals = None     # local index -> initial constant
-        self.heads = []
+        self.acc_locals = None     # 'best' / 'dist' -> {'cell', 'path', 'init'}   (name kept: rules test it for None / len)
+        self.heads = []            # (function path, loop head) in order of first visit
         self.vec_terms = []
         self.pre_havoc = []
         self.v_range = v_range
-        self.fn_path = None
+        self.fn_path = None        # function holding the octave loop
+        self.fn_paths = set()      # functions holding either loop
         self.inner_domain = []
 
+    # -- accumulator slots: (frame index in the call stack, local index, field path).  Addressed through the frame's
+    # current binding of the local on every access (the interpreter may re-bind a local to a fresh cell).
+    def _cell(self, state, key):
+        a = self.acc_locals[key]
+        frames = state.frames
+        if a['frame'] >= len(frames):
+            return None
+        return frames[a['frame']].locals.get(a['local'])
+
+    def acc_get(self, state, key):
+        a = self.acc_locals[key]
+        cell = self._cell(state, key)
+        v = state.cells.get(cell) if cell is not None else None
+        for i in a['path']:
+            if not isinstance(v, StructV):
+                return None
+            v = v.fields[i]
+        return v
+
+    def acc_set(self, state, key, val):
+        a = self.acc_locals[key]
+        cell = self._cell(state, key)
+        if cell is None:
+            return
+        if not a['path']:
+            state.cells[cell] = val
+            return
+        v = state.cells.get(cell)
+        for i in a['path'][:-1]:
+            v = v.fields[i]
+        v.fields[a['path'][-1]] = val
+
+    def _find_accs(self, st, fr, cfg, head):
+        qz = self.qz
+        assigned = set()
+        for b in cfg.loops[head]:
+            for s_ in fr.fn['blocks'][b]['stmts']:
+                if s_['k'] == 'assign' and not s_['place']['p']:
+                    assigned.add(s_['place']['l'])
+        slots = []     # (local, path, Num)
+        for l, cell in sorted(fr.locals.items()):
+            v = st.cells.get(cell)
+            if isinstance(v, Num) and v.term.const_value() is not None and l in assigned:
+                slots.append((l, (), v))
+            elif isinstance(v, StructV) and v.path.startswith('synth_utils::'):
+                for i, f in enumerate(v.fields):
+                    if isinstance(f, Num) and f.term.const_value() is not None:
+                        slots.append((l, (i,), f))
+        # best distance: starts at the maximum of its type; best candidate: starts at 0 and has the same type (or a type too
+        # narrow for microvolts: a note number).  Other constant-initialised slots (explicit loop indices) are loop variables.
+        self.acc_locals = {}
+        dist = [x for x in slots if x[2].ty in INT_RANGES_ and x[2].term.const_value() == INT_RANGES_[x[2].ty][1]]
+        if len(dist) != 1:
+            return
+        d = dist[0]
+        zero = [x for x in slots if x[2].term.const_value() == 0 and x is not d and bool(x[1]) == bool(d[1]) and (not d[1] or x[0] == d[0])]
+        best = [x for x in zero if x[2].ty == d[2].ty] or [x for x in zero if x[2].ty in INT_RANGES_ and INT_RANGES_[x[2].ty][1] < qz.H]
+        if len(best) != 1:
+            return
+        b = best[0]
+        fi = len(st.frames) - 1
+        self.acc_locals = {'best': {'frame': fi, 'local': b[0], 'path': b[1], 'init': b[2]}, 'dist': {'frame': fi, 'local': d[0], 'path': d[1], 'init': d[2]}}
+        self.form = 'note' if INT_RANGES_[b[2].ty][1] < qz.H else 'uv'
+
     def hook(self, it, st, fr, cfg, head):
-        if not fr.fn['path'].startswith('synth_utils::quantizer::') or (self.fn_path is not None and fr.fn['path'] != self.fn_path):
+        key = (fr.fn['path'], head)
+        known = key in self.heads
+        if not fr.fn['path'].startswith('synth_utils::quantizer::') or (not known and len(self.heads) >= 2):
             it.havoc_loop(st, fr, cfg, head)
             return
-        self.fn_path = fr.fn['path']
-        depth = len(self.heads) if head not in self.heads else self.heads.index(head)
-        if head not in self.heads:
-            self.heads.append(head)
+        if not known:
+            self.heads.append(key)
+        depth = self.heads.index(key)
+        if depth == 0:
+            self.fn_path = fr.fn['path']
+        self.fn_paths.add(fr.fn['path'])
         mode = self.modes[min(depth, len(self.modes) - 1)]
-        # loop-carried accumulators: scalar locals holding a constant before the outermost loop and assigned inside it
         if self.acc_locals is None:
-            assigned = set()
-            for b in cfg.loops[head]:
-                for s in fr.fn['blocks'][b]['stmts']:
-                    if s['k'] == 'assign' and not s['place']['p']:
-                        assigned.add(s['place']['l'])
-            cands = {}
-            for l in sorted(assigned):
-                cell = fr.locals.get(l)
-                v = st.cells.get(cell) if cell is not None else None
-                if isinstance(v, Num) and v.term.const_value() is not None:
-                    cands[l] = v
-            # best distance: starts at the maximum of its type; best candidate: starts at 0 and has the same type.
-            # other constant-initialised locals (explicit loop indices) are ordinary loop variables
-            self.acc_locals = {}
-            dist = [l for l, v in cands.items() if v.ty in INT_RANGES_ and v.term.const_value() == INT_RANGES_[v.ty][1]]
-            if len(dist) == 1:
-                dty = cands[dist[0]].ty
-                zero = [l for l, v in cands.items() if v.term.const_value() == 0 and l != dist[0]]
-                best = [l for l in zero if cands[l].ty == dty] or ([l for l in zero if cands[l].ty in INT_RANGES_ and INT_RANGES_[cands[l].ty][1] < self.qz.H])
-                if len(best) == 1:
-                    self.acc_locals = {best[0]: cands[best[0]], dist[0]: cands[dist[0]]}
-                    # the best candidate is remembered as a voltage in microvolts, or (a type too narrow for that) as a note number
-                    self.form = 'note' if INT_RANGES_[cands[best[0]].ty][1] < self.qz.H else 'uv'
+            self._find_accs(st, fr, cfg, head)
         if depth == 0:
             # the octave list being iterated (one per path reaching the outer loop)
             seen_terms = set()
@@ -528,10 +581,10 @@ class SearchRun:
                     seen_terms.add(v.term)
                     self.vec_terms.append((v.term, st.ctx.copy()))
                 elif isinstance(v, StructV) and v.path.endswith('RangeInclusive') and isinstance(v.get('start'), Num):
-                    key = ('incl', v.get('start').term, v.get('end').term)
-                    if key not in seen_terms:
-                        seen_terms.add(key)
-                        self.vec_terms.append((key, st.ctx.copy()))
+                    k_ = ('incl', v.get('start').term, v.get('end').term)
+                    if k_ not in seen_terms:
+                        seen_terms.add(k_)
+                        self.vec_terms.append((k_, st.ctx.copy()))
         if depth == 1 and not self.inner_domain:
             # iteration domain of the inner scan: a Range with constant bounds, or a counted loop from a constant
             for l, cell in fr.locals.items():
@@ -548,13 +601,13 @@ class SearchRun:
                     v0 = st.cells.get(fr.locals.get(cl))
                     if isinstance(v0, Num) and v0.term.const_value() is not None and bound is not None and op in ('Lt',):
                         self.inner_domain.append((int(v0.term.const_value()), bound))
-        saved = {l: copy.deepcopy(st.cells[fr.locals[l]]) for l in self.acc_locals}
+        saved = {k_: copy.deepcopy(self.acc_get(st, k_)) for k_ in self.acc_locals}
         # plain havoc: the ranges of the loop symbols come from the iterator models, the accumulators from A/B below
         it.apply_havoc(st, fr, head, it.loop_places(st, fr, cfg, head))
         qz = self.qz
         if mode == 'A':
-            for l, v in saved.items():
-                st.cells[fr.locals[l]] = v
+            for k_, v in saved.items():
+                self.acc_set(st, k_, v)
         elif mode == 'B':
             if depth == 0 or not any(isinstance(v, Num) and 'prev.' in repr(v.term) for v in saved.values()):
                 # some earlier candidate: pc'*H + k'*O with pc' enabled
@@ -562,20 +615,19 @@ class SearchRun:
                 kk = st.ctx.sym_range(st.fresh_name('prev.oct'), 0, qz.MAX_OCT + 1, integer=True)
                 st.ctx.assume(qz.enabled(Poly.sym('self.allowed'), pc, st.ctx))
                 cand = (pc + kk.scale(12)) if getattr(self, 'form', 'uv') == 'note' else (pc.scale(qz.H) + kk.scale(qz.O))
-                for l, v0 in self.acc_locals.items():
-                    c0 = v0.term.const_value()
-                    if c0 == 0:
-                        st.cells[fr.locals[l]] = Num(cand, v0.ty)
+                for k_, a in self.acc_locals.items():
+                    if k_ == 'best':
+                        self.acc_set(st, k_, Num(cand, a['init'].ty))
                     else:
                         d = st.ctx.sym_range(st.fresh_name('prev.delta'), 0, 2 ** 32 - 1, integer=True)
-                        st.cells[fr.locals[l]] = Num(d, v0.ty)
+                        self.acc_set(st, k_, Num(d, a['init'].ty))
             else:
-                for l, v in saved.items():
-                    st.cells[fr.locals[l]] = v
+                for k_, v in saved.items():
+                    self.acc_set(st, k_, v)
         if depth == 1 and self.acc_locals:
             # accumulators at the head of the candidate iteration about to be analysed (R-ARGMIN compares the back edges with them)
-            st.tags['search_pre'] = {l: st.cells[fr.locals[l]].term for l in self.acc_locals if isinstance(st.cells.get(fr.locals.get(l)), Num)}
-            st.tags['search_inner_head'] = head
+            st.tags['search_pre'] = {k_: self.acc_get(st, k_).term for k_ in self.acc_locals if isinstance(self.acc_get(st, k_), Num)}
+            st.tags['search_inner_head'] = key
             self.visits = getattr(self, 'visits', 0) + 1
             st.tags['search_visit'] = self.visits     # one analysed iteration per path reaching the inner loop head
 
@@ -643,8 +695,7 @@ def check_search(res, facts, prop):
                'loop-carried accumulators %s, loop heads %s (expected best-candidate and best-distance in a two-level scan)' % (run.acc_locals, run.heads), where, key='R-SEARCH:shape:%s%s' % modes)
         if run.acc_locals is None:
             continue
-        init_vals = sorted(int(vv.term.const_value()) for vv in run.acc_locals.values())
-        best_l = [l for l, vv in run.acc_locals.items() if vv.term.const_value() == 0]
+        best_l = ['best'] if 'best' in run.acc_locals else []
         # (i) the octaves searched: ascending, exactly {k-1 if k>=1, k, k+1 if k<MAX}
         if modes == ('A', 'A') and prop == 'C08':
             for term, ctx in run.vec_terms:
@@ -709,10 +760,10 @@ def check_search(res, facts, prop):
             elif o.status == 'loopback':
                 n_back += 1
                 fr = o.state.frames[-1] if o.state.frames else None
-                if fr is None or fr.fn['path'] != run.fn_path:
+                if fr is None or fr.fn['path'] not in run.fn_paths:
                     continue
                 for l in best_l:
-                    cur = o.cells.get(fr.locals.get(l))
+                    cur = run.acc_get(o.state, l)
                     if not isinstance(cur, Num):
                         res.ob('R-SEARCH', inst0 + '|inductive', False, 'best candidate is %r at the back edge' % (cur,), where)
                         continue
@@ -772,8 +823,7 @@ def check_argmin_steps(res, qz, run, outs, vin, inst0, where):
     H, O = qz.H, qz.O
     if not run.acc_locals or len(run.acc_locals) != 2:
         return 0
-    best_l = [l for l, vv in run.acc_locals.items() if vv.term.const_value() == 0][0]
-    dist_l = [l for l in run.acc_locals if l != best_l][0]
+    best_l, dist_l = 'best', 'dist'
     form = getattr(run, 'form', 'uv')
     # pass 1: the candidate of each analysed iteration = the term returned by a close return / stored by an update
     cands = {}
@@ -791,8 +841,8 @@ def check_argmin_steps(res, qz, run, outs, vin, inst0, where):
             volt = pcs.scale(H) + octs.scale(O)
             if not (volt == best0 or o.ctx.sem_eq(volt, best0)):
                 term = volt
-        elif o.status == 'loopback' and fr is not None and fr.fn['path'] == run.fn_path:
-            b1 = o.cells.get(fr.locals.get(best_l))
+        elif o.status == 'loopback' and fr is not None and fr.fn['path'] in run.fn_paths:
+            b1 = run.acc_get(o.state, best_l)
             if isinstance(b1, Num):
                 b1v = best_to_volt(qz, b1.term, o.ctx, form)
                 if not (b1v == best0 or o.ctx.sem_eq(b1v, best0)):
@@ -822,11 +872,11 @@ def check_argmin_steps(res, qz, run, outs, vin, inst0, where):
         pc = t_mod(t_idiv(c, Poly.const(H), ctx), Poly.const(12), ctx)
         en = ctx.decide(qz.enabled(Poly.sym('self.allowed'), pc, ctx))
         if o.status == 'loopback':
-            if fr is None or fr.fn['path'] != run.fn_path:
+            if fr is None or fr.fn['path'] not in run.fn_paths:
                 continue
             n += 1
-            b1 = o.cells.get(fr.locals.get(best_l))
-            d1 = o.cells.get(fr.locals.get(dist_l))
+            b1 = run.acc_get(o.state, best_l)
+            d1 = run.acc_get(o.state, dist_l)
             if not (isinstance(b1, Num) and isinstance(d1, Num)):
                 res.ob('R-ARGMIN', inst + '|accumulators', False, 'accumulators at the back edge: %r, %r' % (b1, d1), where, key='R-ARGMIN:acc:%s:%d' % (inst0, n))
                 continue
